@@ -259,4 +259,1287 @@ theorem finLoop_of_runs : ∀ (added : List Executed) (s s' : S) (done : List Ex
     | nonfatal hx hrest =>
       simp only [List.map_cons]; unfold finLoop; simp [hx, ih _ _ _ hrest]
 
+/-! ## prepare_proposal -/
+
+theorem cometAdd_ok {b b' : BSC} {n : Nat} (h : b.cometAdd n = .ok b') :
+    b'.curComet = b.curComet + n ∧ b'.maxComet = b.maxComet ∧ b'.curSeq = b.curSeq ∧
+    b'.maxSeq = b.maxSeq ∧ b'.curComet ≤ b'.maxComet := by
+  unfold BSC.cometAdd at h
+  split at h
+  · simp at h
+  · split at h
+    · simp at h; subst h; simp_all
+    · simp at h
+
+theorem BSC_new_ok {m : Int} {b : BSC} (h : BSC.new m = .ok b) :
+    0 ≤ m ∧ b.maxComet = m.toNat ∧ b.curComet = commitmentsSize ∧ b.curSeq = 0 ∧
+    b.maxSeq = maxSeqBytes ∧ b.curComet ≤ b.maxComet := by
+  unfold BSC.new at h
+  split at h
+  · simp at h
+  · split at h
+    · simp at h
+    · simp at h; subst h; simp; omega
+
+/-- what `prepEci` can return -/
+theorem prepEci_ok {s : S} {r : PrepReq} {b b' : BSC} {e : Option Item}
+    (h : prepEci p s r b = .ok (e, b')) :
+    b'.maxComet = b.maxComet ∧ b'.curSeq = b.curSeq ∧ b'.maxSeq = b.maxSeq ∧
+    b'.curComet = b.curComet + (e.toList.map Item.len).sum ∧
+    (b.curComet ≤ b.maxComet → b'.curComet ≤ b'.maxComet) ∧
+    ((p.veEnabled s r.height = false ∧ e = none) ∨
+     (p.veEnabled s r.height = true ∧ e = some (.eci (p.eciFull s r).1 (p.eciFull s r).2 true)) ∨
+     (p.veEnabled s r.height = true ∧ e = some (.eci p.eciEmpty.1 p.eciEmpty.2 false) ∧
+        ∃ er, b.cometAdd (p.eciFull s r).2 = .error er)) := by
+  unfold prepEci at h
+  split at h
+  · rename_i hve
+    split at h
+    · simp at h
+    · split at h
+      · rename_i b1 hb1
+        simp at h
+        obtain ⟨rfl, rfl⟩ := h
+        obtain ⟨h1, h2, h3, h4, h5⟩ := cometAdd_ok hb1
+        refine ⟨h2, h3, h4, by simp [Item.len, h1], fun _ => h5, Or.inr (Or.inl ⟨hve, rfl⟩)⟩
+      · rename_i er her
+        split at h
+        · rename_i b1 hb1
+          simp at h
+          obtain ⟨rfl, rfl⟩ := h
+          obtain ⟨h1, h2, h3, h4, h5⟩ := cometAdd_ok hb1
+          refine ⟨h2, h3, h4, by simp [Item.len, h1], fun _ => h5, Or.inr (Or.inr ⟨hve, rfl, er, her⟩)⟩
+        · simp at h
+  · rename_i hve
+    simp at h
+    obtain ⟨rfl, rfl⟩ := h
+    simp at hve
+    exact ⟨rfl, rfl, rfl, by simp, id, Or.inl ⟨hve, rfl⟩⟩
+
+/-- Everything a successful `prepare_proposal` guarantees, in one statement. -/
+theorem stepPrepare_spec {a a' : AppState S} {r : PrepReq} {items : List Item}
+    (h : stepPrepare p a r = (a', .prepared items)) :
+    ∃ (s1 : S) (eci : Option Item) (added : List Executed) (bsc0 bsc1 : BSC) (st : LoopSt S),
+      p.pre a.committed (r.asBlock []) = .ok s1 ∧
+      BSC.new r.maxTxBytes = .ok bsc0 ∧
+      prepEci p s1 r bsc0 = .ok (eci, bsc1) ∧
+      prepLoop p (LoopSt.init s1 bsc1) r.queue = .ok st ∧
+      Ext p (LoopSt.init s1 bsc1) st added ∧
+      (added.map (·.1)).Sublist r.queue ∧
+      items = proposalItems (p.roots st.s (added.map (·.1))).1 (p.roots st.s (added.map (·.1))).2 eci added ∧
+      a'.work = st.s ∧ a'.executedTxs = some added ∧ a'.exec = .prepared (r.fp items) ∧
+      a'.committed = a.committed ∧ a'.postResult = none ∧ a'.writeBatch = a.writeBatch := by
+  unfold stepPrepare at h
+  simp only [AppState.reset] at h
+  split at h
+  · simp at h
+  · rename_i s1 hpre
+    split at h
+    · simp at h
+    · rename_i bsc0 hb
+      split at h
+      · simp at h
+      · rename_i eci bsc1 he
+        split at h
+        · simp at h
+        · rename_i st hl
+          obtain ⟨added, hext, hsub⟩ := prepLoop_ext p _ _ _ hl
+          have hd : st.done = added := by simpa [LoopSt.init] using hext.done
+          simp only [ExecState.setPrepared] at h
+          simp at h
+          obtain ⟨rfl, rfl⟩ := h
+          refine ⟨s1, eci, added, bsc0, bsc1, st, hpre, hb, he, hl, hext, hsub, ?_, rfl, ?_, ?_, rfl, rfl, rfl⟩
+          · simp [hd]
+          · simp [hd]
+          · simp [hd]
+
+theorem itemsLen_proposal (r1 r2 : Nat) (eci : Option Item) (done : List Executed) :
+    ((proposalItems r1 r2 eci done).map Item.len).sum
+      = commitmentsSize + (eci.toList.map Item.len).sum + lenSum done := by
+  simp [proposalItems, Item.len, commitmentsSize, lenSum, List.map_map, Function.comp_def]
+  omega
+
+/-- C06, limits: the proposal's raw bytes stay within `max_tx_bytes`, its sequenced data within
+256 000 bytes. -/
+theorem prepare_within_limits {a a' : AppState S} {r : PrepReq} {items : List Item}
+    (h : stepPrepare p a r = (a', .prepared items)) :
+    0 ≤ r.maxTxBytes ∧ ((items.map Item.len).sum : Int) ≤ r.maxTxBytes ∧
+    ∃ added, a'.executedTxs = some added ∧ seqSum added ≤ maxSeqBytes := by
+  obtain ⟨s1, eci, added, bsc0, bsc1, st, _, hb, he, _, hext, _, hitems, _, hex, _⟩ := stepPrepare_spec p h
+  obtain ⟨hm0, hmax, hcur, hseq0, hms, hfit0⟩ := BSC_new_ok hb
+  obtain ⟨e1, e2, e3, e4, e5, _⟩ := prepEci_ok p he
+  have hc := hext.comet
+  have hs := hext.seq
+  have hfc := hext.fitC (by simpa [LoopSt.init] using e5 hfit0)
+  have hfs := hext.fitS (by simp [LoopSt.init, e2, hseq0])
+  have hmc := hext.maxC
+  have hmsq := hext.maxS
+  simp [LoopSt.init] at hc hs hmc hmsq
+  refine ⟨hm0, ?_, added, hex, ?_⟩
+  · rw [hitems, itemsLen_proposal]
+    have : commitmentsSize + (eci.toList.map Item.len).sum + lenSum added ≤ r.maxTxBytes.toNat := by
+      rw [hc, e4, hcur, hmc, e1, hmax] at hfc; omega
+    omega
+  · rw [hs, e2, hseq0, hmsq, e3, hms] at hfs; omega
+
+/-! ## process_proposal / finalize_block building blocks -/
+
+theorem reset_eq_init {a : AppState S} {σ : S} (hc : a.committed = σ) (hw : a.writeBatch = none) :
+    a.reset = AppState.init σ := by
+  cases a; simp_all [AppState.reset, AppState.init]
+
+@[simp] theorem reset_init (σ : S) : (AppState.init σ).reset = AppState.init σ := rfl
+
+/-- the post-execution outcome recorded in `a`: either the new state and result, or (when the
+fallible part failed after the fingerprint was already updated) the old state and no result -/
+def PostDone (s : S) (b : Block) (pd : Parsed) (ex : List Executed) (a : AppState S) : Prop :=
+  (∃ s' aux, p.post s b ex = .ok (s', aux) ∧ a.work = s' ∧
+      a.postResult = some { results := ex, injected := pd.injected, aux := aux }) ∨
+  (∃ e, p.post s b ex = .error e ∧ a.work = s ∧ a.postResult = none)
+
+theorem postStep_spec {a a' : AppState S} {b : Block} {pd : Parsed} {ex : List Executed}
+    {r : Except Err Unit} (h : postStep p a b pd ex = (a', r)) (hpr : a.postResult = none) :
+    (a' = a ∧ ∃ e, r = .error e) ∨
+    (∃ hh ex', b.hash = some hh ∧ a.exec.setExecuted hh = .ok ex' ∧ a'.exec = ex' ∧
+       a'.committed = a.committed ∧ a'.writeBatch = a.writeBatch ∧ a'.executedTxs = a.executedTxs ∧
+       PostDone p a.work b pd ex a' ∧ (r = .ok () ↔ a'.postResult.isSome = true)) := by
+  unfold postStep at h
+  split at h
+  · simp at h; exact Or.inl ⟨h.1.symm, _, h.2.symm⟩
+  · rename_i hh hhash
+    split at h
+    · simp at h; exact Or.inl ⟨h.1.symm, _, h.2.symm⟩
+    · rename_i ex' hset
+      dsimp only at h
+      split at h
+      · rename_i e hpost
+        simp at h
+        obtain ⟨rfl, rfl⟩ := h
+        exact Or.inr ⟨hh, ex', hhash, hset, rfl, rfl, rfl, rfl, Or.inr ⟨e, hpost, rfl, hpr⟩, by simp [hpr]⟩
+      · rename_i s' aux hpost
+        simp at h
+        obtain ⟨rfl, rfl⟩ := h
+        exact Or.inr ⟨hh, ex', hhash, hset, rfl, rfl, rfl, rfl, Or.inl ⟨s', aux, hpost, rfl, rfl⟩, by simp⟩
+
+/-- `processExec` starts from the committed state whatever the working state was. -/
+theorem processExec_init {a : AppState S} {σ : S} (hc : a.committed = σ) (hw : a.writeBatch = none)
+    (b : Block) (pd : Parsed) : processExec p a b pd = processExec p (AppState.init σ) b pd := by
+  unfold processExec
+  rw [reset_eq_init hc hw, reset_init]
+
+theorem processExec_fields (σ : S) (b : Block) (pd : Parsed) :
+    (processExec p (AppState.init σ) b pd).1.exec = .unset ∧
+    (processExec p (AppState.init σ) b pd).1.committed = σ ∧
+    (processExec p (AppState.init σ) b pd).1.writeBatch = none ∧
+    (processExec p (AppState.init σ) b pd).1.executedTxs = none ∧
+    (processExec p (AppState.init σ) b pd).1.postResult = none := by
+  unfold processExec
+  simp only [reset_init]
+  split
+  · simp [AppState.init]
+  · split
+    · simp [AppState.init]
+    · split
+      · simp [AppState.init]
+      · split
+        · simp [AppState.init]
+        · try dsimp only
+          split
+          · simp [AppState.init]
+          · split <;> simp [AppState.init]
+
+/-- What a successful `processExec` means: the proposal passed every check of
+`process_proposal` short of `post_execute_transactions`. -/
+theorem processExec_ok {σ : S} {b : Block} {pd : Parsed} {a1 : AppState S} {ex : List Executed}
+    (h : processExec p (AppState.init σ) b pd = (a1, .ok ex)) :
+    (pd.eci.isSome = true → b.lastCommit.isSome = true ∧ p.veValid σ b = true) ∧
+    ∃ s1 txs st, p.pre σ b = .ok s1 ∧ constructAll p s1 pd.txs = .ok txs ∧
+      procLoop p (LoopSt.init s1 BSC.unlimited) txs = .ok st ∧ st.done = ex ∧ a1.work = st.s ∧
+      pd.r1 = (p.roots st.s txs).1 ∧ pd.r2 = (p.roots st.s txs).2 := by
+  unfold processExec at h
+  simp only [reset_init] at h
+  split at h
+  · simp at h
+  · rename_i hve
+    split at h
+    · simp at h
+    · rename_i s1 hpre
+      split at h
+      · simp at h
+      · rename_i txs hcon
+        split at h
+        · simp at h
+        · rename_i st hl
+          try dsimp only at h
+          split at h
+          · simp at h
+          · rename_i hr1
+            split at h
+            · simp at h
+            · rename_i hr2
+              simp at h
+              obtain ⟨rfl, rfl⟩ := h
+              refine ⟨?_, s1, txs, st, by simpa [AppState.init] using hpre, hcon, hl, rfl, rfl, by simpa using hr1, by simpa using hr2⟩
+              intro heci
+              simp [heci] at hve
+              split at hve
+              · simp at hve
+              · rename_i hlc
+                by_cases hv : p.veValid (AppState.init σ).work b = true
+                · exact ⟨by cases hb : b.lastCommit <;> simp_all, by simpa [AppState.init] using hv⟩
+                · simp [hv] at hve
+/-- `process_proposal` when the fingerprint does not allow skipping -/
+theorem stepProcess_noskip {a : AppState S} {b : Block} {ex1 : ExecState}
+    (hck : a.exec.checkPrepared b.fp = (ex1, false)) :
+    stepProcess p a b =
+      match parseItems (p.veEnabled a.work b.height) b.items with
+      | .error e => ({ a with exec := ex1 }, .reject e)
+      | .ok pd =>
+        match processExec p { a with exec := ex1 } b pd with
+        | (a1, .error e) => (a1, .reject e)
+        | (a1, .ok ex) =>
+          match postStep p a1 b pd ex with
+          | (a2, .error e) => (a2, .reject e)
+          | (a2, .ok _) => (a2, .accept) := by
+  unfold stepProcess
+  simp only [hck]
+  cases hp : parseItems (p.veEnabled a.work b.height) b.items with
+  | error e => simp
+  | ok pd =>
+    simp
+    cases hx : processExec p { a with exec := ex1 } b pd with
+    | mk a1 r =>
+      cases r with
+      | error e => simp
+      | ok ex =>
+        simp
+        cases hq : postStep p a1 b pd ex with
+        | mk a2 r2 => cases r2 <;> simp
+
+/-- `process_proposal` when the proposal is byte-for-byte the one this node prepared -/
+theorem stepProcess_skip {a : AppState S} {b : Block} {ex1 : ExecState}
+    (hck : a.exec.checkPrepared b.fp = (ex1, true)) :
+    stepProcess p a b =
+      match parseItems (p.veEnabled a.work b.height) b.items with
+      | .error e => ({ a with exec := ex1 }, .reject e)
+      | .ok pd =>
+        match a.executedTxs with
+        | none => ({ a with exec := ex1 }, .reject .nocache)
+        | some ex =>
+          match postStep p { a with exec := ex1 } b pd ex with
+          | (a2, .error e) => (a2, .reject e)
+          | (a2, .ok _) => (a2, .accept) := by
+  unfold stepProcess
+  simp only [hck]
+  cases hp : parseItems (p.veEnabled a.work b.height) b.items with
+  | error e => simp
+  | ok pd =>
+    simp
+    cases hx : a.executedTxs with
+    | none => simp
+    | some ex =>
+      simp
+      cases hq : postStep p { a with exec := ex1 } b pd ex with
+      | mk a2 r2 => cases r2 <;> rfl
+/-! ## ProcessProposal: acceptance is sound (C06) -/
+
+/-- the data items a successfully parsed block consists of -/
+theorem parseItems_shape {veOn : Bool} {items : List Item} {pd : Parsed}
+    (h : parseItems veOn items = .ok pd) :
+    ∃ (up : List Item) (ec : List Item),
+      items = [Item.root1 pd.r1, Item.root2 pd.r2] ++ up ++ ec ++ pd.txs ∧
+      (up = [] ∨ ∃ u, up = [Item.upgrade u]) ∧
+      (veOn = true → ∃ bid len, ec = [Item.eci bid len true] ∧ pd.eci = some (bid, len)) ∧
+      (veOn = false → ec = [] ∧ pd.eci = none) := by
+  unfold parseItems at h
+  split at h
+  · rename_i a b rest
+    split at h
+    · rename_i up rest' hm
+      split at hm
+      · rename_i u r'
+        simp at hm
+        obtain ⟨rfl, rfl⟩ := hm
+        split at h
+        · rename_i hve
+          split at h
+          · rename_i bid len wf r
+            split at h
+            · rename_i hwf
+              simp at h; subst h
+              exact ⟨[Item.upgrade u], [Item.eci bid len true], by simp [hwf], Or.inr ⟨u, rfl⟩,
+                fun _ => ⟨bid, len, rfl, rfl⟩, fun hf => by simp [hve] at hf⟩
+            · simp at h
+          · simp at h
+        · rename_i hve
+          simp at h; subst h
+          exact ⟨[Item.upgrade u], [], by simp, Or.inr ⟨u, rfl⟩, fun ht => by simp [ht] at hve,
+            fun _ => ⟨rfl, rfl⟩⟩
+      · rename_i r'
+        simp at hm
+        obtain ⟨rfl, rfl⟩ := hm
+        split at h
+        · rename_i hve
+          split at h
+          · rename_i bid len wf r
+            split at h
+            · rename_i hwf
+              simp at h; subst h
+              exact ⟨[], [Item.eci bid len true], by simp [hwf], Or.inl rfl,
+                fun _ => ⟨bid, len, rfl, rfl⟩, fun hf => by simp [hve] at hf⟩
+            · simp at h
+          · simp at h
+        · rename_i hve
+          simp at h; subst h
+          exact ⟨[], [], by simp, Or.inl rfl, fun ht => by simp [ht] at hve, fun _ => ⟨rfl, rfl⟩⟩
+  · simp at h
+
+/-- `construct_checked_txs` succeeds only on a list of constructible transactions -/
+theorem constructAll_ok : ∀ {s : S} {items : List Item} {txs : List Tx},
+    constructAll p s items = .ok txs →
+    items = txs.map Item.tx ∧ ∀ t ∈ txs, p.constructible s t = true := by
+  intro s items
+  induction items with
+  | nil => intro txs h; simp [constructAll] at h; subst h; simp
+  | cons it rest ih =>
+    intro txs h
+    cases it with
+    | tx t =>
+      unfold constructAll at h
+      split at h
+      · rename_i hc
+        split at h
+        · rename_i ts hts
+          simp at h; subst h
+          obtain ⟨h1, h2⟩ := ih hts
+          exact ⟨by simp [h1], by intro t' ht'; simp at ht'; rcases ht' with rfl | ht'; exact hc; exact h2 _ ht'⟩
+        · simp at h
+      · simp at h
+    | _ => simp [constructAll] at h
+
+theorem constructAll_complete : ∀ {s : S} (txs : List Tx),
+    (∀ t ∈ txs, p.constructible s t = true) → constructAll p s (txs.map Item.tx) = .ok txs := by
+  intro s txs
+  induction txs with
+  | nil => intro _; simp [constructAll]
+  | cons t ts ih =>
+    intro h
+    simp only [List.map_cons]
+    unfold constructAll
+    simp [h t (by simp), ih (fun t' ht' => h t' (by simp [ht']))]
+
+/-- **Acceptance is sound.** If a node that cannot skip execution accepts a proposal, then the
+data items are in the required order, the extended commit info (if any) validates, every further
+item is a transaction constructible at block start, and executing them in order: nothing fails
+fatally, the group order holds, the sequenced data stays within 256 000 bytes, both commitments
+equal the recomputed ones, and post-execution succeeded. -/
+theorem process_accept_sound {a a' : AppState S} {b : Block} {σ : S} {ex1 : ExecState}
+    (hc : a.committed = σ) (hw : a.writeBatch = none)
+    (hck : a.exec.checkPrepared b.fp = (ex1, false))
+    (h : stepProcess p a b = (a', .accept)) :
+    ∃ pd s1 added s' hh s'' aux,
+      parseItems (p.veEnabled a.work b.height) b.items = .ok pd ∧
+      (pd.eci.isSome = true → b.lastCommit.isSome = true ∧ p.veValid σ b = true) ∧
+      p.pre σ b = .ok s1 ∧ pd.txs = added.map (fun e => Item.tx e.1) ∧
+      (∀ e ∈ added, p.constructible s1 e.1 = true) ∧
+      Runs p s1 added s' ∧ GroupChain 4 added ∧ seqSum added ≤ maxSeqBytes ∧
+      pd.r1 = (p.roots s' (added.map (·.1))).1 ∧ pd.r2 = (p.roots s' (added.map (·.1))).2 ∧
+      b.hash = some hh ∧ p.post s' b added = .ok (s'', aux) ∧
+      a'.exec = .executedBlock hh none ∧ a'.work = s'' ∧
+      a'.postResult = some { results := added, injected := pd.injected, aux := aux } ∧
+      a'.committed = σ ∧ a'.writeBatch = none := by
+  rw [stepProcess_noskip p hck] at h
+  cases hp : parseItems (p.veEnabled a.work b.height) b.items with
+  | error e => simp [hp] at h
+  | ok pd =>
+    simp only [hp] at h
+    have hinit := processExec_init p (a := { a with exec := ex1 }) (σ := σ) hc hw b pd
+    rw [hinit] at h
+    cases hx : processExec p (AppState.init σ) b pd with
+    | mk a1 r =>
+      rw [hx] at h
+      cases r with
+      | error e => simp at h
+      | ok ex =>
+        simp only at h
+        obtain ⟨hf1, hf2, hf3, hf4, hf5⟩ := processExec_fields p σ b pd
+        rw [hx] at hf1 hf2 hf3 hf4 hf5
+        simp at hf1 hf2 hf3 hf4 hf5
+        obtain ⟨hve, s1, txs, st, hpre, hcon, hl, hdone, hwork, hr1, hr2⟩ := processExec_ok p hx
+        obtain ⟨added, hext, hmap⟩ := procLoop_ext p _ _ _ hl
+        obtain ⟨hitems, hcons⟩ := constructAll_ok p hcon
+        have hd : st.done = added := by simpa [LoopSt.init] using hext.done
+        cases hq : postStep p a1 b pd ex with
+        | mk a2 r2 =>
+          rw [hq] at h
+          cases r2 with
+          | error e => simp at h
+          | ok u =>
+            simp at h
+            subst h
+            rcases postStep_spec p hq hf5 with ⟨_, e, he⟩ | ⟨hh, ex', hhash, hset, hex, hcm, hwb, _, hpd, hiff⟩
+            · simp at he
+            · rw [hf1] at hset
+              simp [ExecState.setExecuted] at hset
+              rcases hpd with ⟨s'', aux, hpost, hw2, hpr⟩ | ⟨e, hpost, _, hnone⟩
+              · have hseq := hext.fitS (by simp [LoopSt.init, BSC.unlimited])
+                have hsq := hext.seq
+                have hms := hext.maxS
+                simp [LoopSt.init, BSC.unlimited] at hsq hms hseq
+                refine ⟨pd, s1, added, st.s, hh, s'', aux, rfl, hve, hpre, ?_, ?_, ?_, ?_, ?_, ?_, ?_, hhash, ?_,
+                  ?_, hw2, ?_, ?_, ?_⟩
+                · rw [hitems, ← hmap]; simp [List.map_map, Function.comp_def]
+                · intro e he; exact hcons _ (by rw [← hmap]; exact List.mem_map_of_mem he)
+                · simpa [LoopSt.init] using hext.runs
+                · simpa [LoopSt.init] using hext.chain
+                · rw [hsq, hms] at hseq; simpa [maxSeqBytes] using hseq
+                · rw [hmap]; exact hr1
+                · rw [hmap]; exact hr2
+                · rw [← hdone, hd] at hpost; rw [← hwork]; exact hpost
+                · rw [hex, ← hset]
+                · rw [hpr, ← hdone, hd]
+                · rw [hcm, hf2]
+                · rw [hwb, hf3]
+              · have : a2.postResult.isSome = true := hiff.mp rfl
+                simp [hnone] at this
+/-! ## PrepareProposal then ProcessProposal (C06) -/
+
+/-- converse of `processExec_ok` -/
+theorem processExec_complete {σ s1 : S} {b : Block} {pd : Parsed} {txs : List Tx} {st : LoopSt S}
+    (hv : pd.eci.isSome = true → b.lastCommit.isSome = true ∧ p.veValid σ b = true)
+    (hpre : p.pre σ b = .ok s1) (hcon : constructAll p s1 pd.txs = .ok txs)
+    (hl : procLoop p (LoopSt.init s1 BSC.unlimited) txs = .ok st)
+    (hr1 : pd.r1 = (p.roots st.s txs).1) (hr2 : pd.r2 = (p.roots st.s txs).2) :
+    processExec p (AppState.init σ) b pd = ({ (AppState.init σ) with work := st.s }, .ok st.done) := by
+  unfold processExec
+  simp only [reset_init]
+  split
+  · rename_i e hve
+    exfalso
+    by_cases h : pd.eci.isSome = true
+    · obtain ⟨h1, h2⟩ := hv h
+      simp only [h, if_true] at hve
+      cases hb : b.lastCommit with
+      | none => simp [hb] at h1
+      | some x => simp [hb, AppState.init, h2] at hve
+    · simp [h] at hve
+  · split
+    · rename_i e he; simp [AppState.init, hpre] at he
+    · rename_i s1' hs1
+      have : s1' = s1 := by
+        have := hs1; simp [AppState.init, hpre] at this; exact this.symm
+      subst this
+      split
+      · rename_i e he; simp [hcon] at he
+      · rename_i txs' ht
+        have : txs' = txs := by simp [hcon] at ht; exact ht.symm
+        subst this
+        split
+        · rename_i e he; simp [hl] at he
+        · rename_i st' hst
+          have : st' = st := by simp [hl] at hst; exact hst.symm
+          subst this
+          simp [hr1, hr2]
+
+theorem prepEci_lastCommit {s : S} {r : PrepReq} {b b' : BSC} {e : Option Item}
+    (h : prepEci p s r b = .ok (e, b')) (he : e.isSome = true) : r.lastCommit.isSome = true := by
+  unfold prepEci at h
+  split at h
+  · split at h
+    · simp at h
+    · rename_i hlc; simp [hlc]
+  · simp at h; obtain ⟨rfl, _⟩ := h; simp at he
+
+/-- if the full extended commit info fits, it is the one that is proposed -/
+theorem prepEci_full {s : S} {r : PrepReq} {b b' b1 : BSC} {e : Option Item}
+    (h : prepEci p s r b = .ok (e, b')) (hve : p.veEnabled s r.height = true)
+    (hfit : b.cometAdd (p.eciFull s r).2 = .ok b1) :
+    e = some (.eci (p.eciFull s r).1 (p.eciFull s r).2 true) := by
+  unfold prepEci at h
+  simp [hve] at h
+  split at h
+  · simp at h
+  · simp [hfit] at h; exact h.1.symm
+
+theorem parseItems_proposal_noeci (r1 r2 : Nat) (added : List Executed) :
+    parseItems false (proposalItems r1 r2 none added)
+      = .ok { r1 := r1, r2 := r2, upgrade := none, eci := none, txs := added.map (fun e => Item.tx e.1) } := by
+  cases added <;> simp [proposalItems, parseItems]
+
+theorem parseItems_proposal_eci (r1 r2 bid len : Nat) (added : List Executed) :
+    parseItems true (proposalItems r1 r2 (some (.eci bid len true)) added)
+      = .ok { r1 := r1, r2 := r2, upgrade := none, eci := some (bid, len),
+              txs := added.map (fun e => Item.tx e.1) } := by
+  simp [proposalItems, parseItems]
+
+/-- the block CometBFT builds from a `PrepareProposal` response -/
+def PrepReq.proposed (r : PrepReq) (items : List Item) (hash : Nat) : Block :=
+  { r.asBlock items with hash := some hash }
+
+theorem proposed_fp (r : PrepReq) (items : List Item) (hash : Nat) :
+    (r.proposed items hash).fp = r.fp items := rfl
+
+/-- **Honest proposals are accepted** (partial: under the provisos the unchanged code forces).
+`v` is any node on the same committed state whose own fingerprint does not match. -/
+theorem prepare_then_process_accepts
+    {a a1 : AppState S} {r : PrepReq} {items : List Item} {σ : S} {hash : Nat}
+    (hprep : stepPrepare p a r = (a1, .prepared items)) (hσ : a.committed = σ)
+    (v : AppState S) (hvc : v.committed = σ) (hvw : v.writeBatch = none) {ex1 : ExecState}
+    (hck : v.exec.checkPrepared (r.proposed items hash).fp = (ex1, false))
+    -- max_tx_bytes is an i64
+    (hi64 : r.maxTxBytes ≤ 2 ^ 63 - 1)
+    -- vote-extension enablement at this height does not depend on uncommitted writes
+    (hve : ∀ s s', p.veEnabled s r.height = p.veEnabled s' r.height)
+    -- proviso (F12): the extended commit info fits into max_tx_bytes
+    (hfit : ∀ s1 bsc0, p.pre σ (r.asBlock []) = .ok s1 → BSC.new r.maxTxBytes = .ok bsc0 →
+        p.veEnabled s1 r.height = true → ∃ bsc1, bsc0.cometAdd (p.eciFull s1 r).2 = .ok bsc1)
+    -- pre_execute_transactions depends on the block data only, not on the items / hash
+    (hpre : p.pre σ (r.proposed items hash) = p.pre σ (r.asBlock []))
+    -- the proposer's own extended commit info validates (C15)
+    (hvalid : p.veValid σ (r.proposed items hash) = true)
+    -- proviso (F11): every included transaction can be constructed against the block-start state
+    (hcons : ∀ s1, p.pre σ (r.asBlock []) = .ok s1 → ∀ t, Item.tx t ∈ items → p.constructible s1 t = true)
+    -- post_execute_transactions does not fail on the executed proposal
+    (hpost : ∀ ex, a1.executedTxs = some ex → ∃ s'' aux, p.post a1.work (r.proposed items hash) ex = .ok (s'', aux)) :
+    (stepProcess p v (r.proposed items hash)).2 = .accept := by
+  obtain ⟨s1, eci, added, bsc0, bsc1, st, hpre1, hb, he, hl, hext, hsub, hitems, hwork, hex, hexec, _, _, _⟩ :=
+    stepPrepare_spec p hprep
+  rw [hσ] at hpre1
+  obtain ⟨hm0, hmax, hcur, hseq0, hms, hfit0⟩ := BSC_new_ok hb
+  obtain ⟨e1, e2, e3, e4, e5, ecase⟩ := prepEci_ok p he
+  -- the parse
+  have hparse : ∃ pd, parseItems (p.veEnabled v.work (r.proposed items hash).height) (r.proposed items hash).items = .ok pd ∧
+      pd.r1 = (p.roots st.s (added.map (·.1))).1 ∧ pd.r2 = (p.roots st.s (added.map (·.1))).2 ∧
+      pd.txs = added.map (fun e => Item.tx e.1) ∧ (pd.eci.isSome = true → eci.isSome = true) := by
+    have hv : p.veEnabled v.work r.height = p.veEnabled s1 r.height := hve _ _
+    show ∃ pd, parseItems (p.veEnabled v.work r.height) items = .ok pd ∧ _
+    rw [hv, hitems]
+    cases hen : p.veEnabled s1 r.height with
+    | false =>
+      rcases ecase with ⟨_, rfl⟩ | ⟨h1, _⟩ | ⟨h1, _⟩
+      · exact ⟨_, parseItems_proposal_noeci _ _ _, rfl, rfl, rfl, by simp⟩
+      · simp [hen] at h1
+      · simp [hen] at h1
+    | true =>
+      obtain ⟨b1, hb1⟩ := hfit s1 bsc0 hpre1 hb hen
+      have := prepEci_full p he hen hb1
+      subst this
+      exact ⟨_, parseItems_proposal_eci _ _ _ _ _, rfl, rfl, rfl, by simp⟩
+  obtain ⟨pd, hpd, hr1, hr2, htxs, heci⟩ := hparse
+  rw [stepProcess_noskip p hck, hpd]
+  simp only
+  rw [processExec_init p (a := { v with exec := ex1 }) (σ := σ) hvc hvw]
+  -- the execution
+  have hrun : Runs p s1 added st.s := by simpa [LoopSt.init] using hext.runs
+  have hchain : GroupChain 4 added := by simpa [LoopSt.init] using hext.chain
+  have hc := hext.comet
+  have hs := hext.seq
+  have hfc := hext.fitC (by simpa [LoopSt.init] using e5 hfit0)
+  have hfs := hext.fitS (by simp [LoopSt.init, e2, hseq0])
+  have hmc := hext.maxC
+  have hmsq := hext.maxS
+  simp [LoopSt.init] at hc hs hmc hmsq
+  have hseqle : seqSum added ≤ maxSeqBytes := by
+    rw [hs, e2, hseq0, hmsq, e3, hms] at hfs; omega
+  have hlenle : lenSum added ≤ r.maxTxBytes.toNat := by
+    rw [hc, e4, hcur, hmc, e1, hmax] at hfc; omega
+  have hu : r.maxTxBytes.toNat ≤ 2 ^ 63 - 1 := by omega
+  obtain ⟨st', hpl, hst's, hst'd⟩ := procLoop_complete p added (LoopSt.init s1 BSC.unlimited) st.s
+    (by simpa [LoopSt.init] using hrun) (by simpa [LoopSt.init] using hchain)
+    (by simp [LoopSt.init, BSC.unlimited]; exact hseqle) (by simp [LoopSt.init, BSC.unlimited, maxSeqBytes, usizeMax])
+    (by simp [LoopSt.init, BSC.unlimited, commitmentsSize, usizeMax]; omega) (by simp [LoopSt.init, BSC.unlimited])
+  have hconstr : constructAll p s1 pd.txs = .ok (added.map (·.1)) := by
+    rw [htxs]
+    have := constructAll_complete p (s := s1) (added.map (·.1)) (by
+      intro t ht
+      apply hcons s1 hpre1 t
+      rw [hitems]
+      obtain ⟨e, he', rfl⟩ := List.mem_map.mp ht
+      exact List.mem_append_right _ (List.mem_map.mpr ⟨e, he', rfl⟩))
+    simpa [List.map_map, Function.comp_def] using this
+  have hx : processExec p (AppState.init σ) (r.proposed items hash) pd
+      = ({ (AppState.init σ) with work := st.s }, .ok added) := by
+    have hlc : pd.eci.isSome = true → (r.proposed items hash).lastCommit.isSome = true := by
+      intro h; exact prepEci_lastCommit p he (heci h)
+    have := processExec_complete p (σ := σ) (b := r.proposed items hash) (pd := pd)
+      (fun h => ⟨hlc h, hvalid⟩) (hpre.trans hpre1) hconstr hpl (by rw [hst's]; exact hr1) (by rw [hst's]; exact hr2)
+    rw [this, hst's, hst'd]
+    simp [LoopSt.init]
+  rw [hx]
+  simp only
+  obtain ⟨s'', aux, hp⟩ := hpost added hex
+  rw [hwork] at hp
+  unfold postStep
+  simp [PrepReq.proposed, AppState.init, ExecState.setExecuted]
+  simp [PrepReq.proposed] at hp
+  rw [hp]
+
+/-! ## C05: the fingerprint invariant over all call schedules -/
+
+/-- the calls CometBFT may issue at a height before `FinalizeBlock` (plus a node restart) -/
+def PreCall : Call → Prop
+  | .prepare _ => True
+  | .process _ => True
+  | .restart => True
+  | _ => False
+
+/-- the working state and the cached results are exactly what `prepare_proposal` produced on the
+committed state `σ` for a request/response pair whose fingerprint is `c` -/
+def PreparedOk (σ : S) (a : AppState S) (c : CachedProposal) : Prop :=
+  ∃ r items a0, stepPrepare p (AppState.init σ) r = (a0, .prepared items) ∧ c = r.fp items ∧
+    a.work = a0.work ∧ a.executedTxs = a0.executedTxs ∧ a.postResult = none
+
+/-- the working state was produced by executing, on the committed state `σ`, a proposal `b` of this
+schedule whose block hash is `h`: either by `process_proposal`'s own execution (`cp = none`) or by
+the execution `prepare_proposal` cached for the byte-identical proposal (`cp = some _`), in both
+cases followed by `post_execute_transactions` for `b` -/
+def ExecutedOk (σ : S) (cs : List Call) (a : AppState S) (h : Nat) (cp : Option CachedProposal) : Prop :=
+  ∃ b s0 pd, Call.process b ∈ cs ∧ b.hash = some h ∧
+    parseItems (p.veEnabled s0 b.height) b.items = .ok pd ∧
+    match cp with
+    | none => ∃ a1 ex, processExec p (AppState.init σ) b pd = (a1, .ok ex) ∧ PostDone p a1.work b pd ex a
+    | some c => c = b.fp ∧ ∃ r items a0 ex, stepPrepare p (AppState.init σ) r = (a0, .prepared items) ∧
+        c = r.fp items ∧ a0.executedTxs = some ex ∧ PostDone p a0.work b pd ex a
+
+def Inv (σ : S) (cs : List Call) (a : AppState S) : Prop :=
+  a.committed = σ ∧ a.writeBatch = none ∧
+  match a.exec with
+  | .prepared c => PreparedOk p σ a c
+  | .preparedValid c => PreparedOk p σ a c
+  | .executedBlock h cp => ExecutedOk p σ cs a h cp
+  | _ => True
+
+theorem Inv_init (σ : S) : Inv p σ [] (AppState.init σ) := by
+  simp [Inv, AppState.init]
+
+theorem ExecutedOk_mono {σ : S} {cs cs' : List Call} {a : AppState S} {h : Nat} {cp : Option CachedProposal}
+    (hi : ExecutedOk p σ cs a h cp) : ExecutedOk p σ (cs ++ cs') a h cp := by
+  obtain ⟨b, s0, pd, hm, rest⟩ := hi
+  exact ⟨b, s0, pd, List.mem_append_left _ hm, rest⟩
+
+theorem Inv_mono {σ : S} {cs cs' : List Call} {a : AppState S} (hi : Inv p σ cs a) : Inv p σ (cs ++ cs') a := by
+  obtain ⟨h1, h2, h3⟩ := hi
+  refine ⟨h1, h2, ?_⟩
+  split <;> simp_all
+  exact ExecutedOk_mono p h3
+
+/-- an `Inv` that does not look at the fingerprint-specific part -/
+theorem Inv_of_trivial {σ : S} {cs : List Call} {a : AppState S} (hc : a.committed = σ) (hw : a.writeBatch = none)
+    (he : a.exec = .unset ∨ (∃ c, a.exec = .checkedPreparedMismatch c) ∨ ∃ h cp, a.exec = .checkedExecutedBlockMismatch h cp) :
+    Inv p σ cs a := by
+  refine ⟨hc, hw, ?_⟩
+  rcases he with he | ⟨c, he⟩ | ⟨h, cp, he⟩ <;> simp [he]
+
+theorem checkPrepared_false {e e' : ExecState} {c : CachedProposal}
+    (h : e.checkPrepared c = (e', false)) :
+    (e' = e ∧ (∀ c', e ≠ .prepared c') ∧ (∀ c', e ≠ .preparedValid c')) ∨ ∃ c', e' = .checkedPreparedMismatch c' := by
+  cases e <;> simp [ExecState.checkPrepared] at h
+  · exact Or.inl ⟨h.symm, by simp, by simp⟩
+  · split at h <;> simp at h; exact Or.inr ⟨_, h.symm⟩
+  · split at h <;> simp at h; exact Or.inr ⟨_, h.symm⟩
+  · exact Or.inl ⟨h.symm, by simp, by simp⟩
+  · exact Or.inl ⟨h.symm, by simp, by simp⟩
+  · exact Or.inl ⟨h.symm, by simp, by simp⟩
+
+/-- `prepare_proposal` always starts from the committed state -/
+theorem stepPrepare_init {a : AppState S} {σ : S} (hc : a.committed = σ) (hw : a.writeBatch = none) (r : PrepReq) :
+    stepPrepare p a r = stepPrepare p (AppState.init σ) r := by
+  unfold stepPrepare
+  rw [reset_eq_init hc hw, reset_init]
+
+theorem stepPrepare_err {σ : S} {r : PrepReq} {a' : AppState S} {resp : Resp S}
+    (h : stepPrepare p (AppState.init σ) r = (a', resp)) :
+    (∃ items, resp = .prepared items) ∨ (a'.exec = .unset ∧ a'.committed = σ ∧ a'.writeBatch = none) := by
+  unfold stepPrepare at h
+  simp only [reset_init] at h
+  split at h
+  · simp at h; obtain ⟨rfl, rfl⟩ := h; exact Or.inr ⟨rfl, rfl, rfl⟩
+  · split at h
+    · simp at h; obtain ⟨rfl, rfl⟩ := h; exact Or.inr ⟨rfl, rfl, rfl⟩
+    · split at h
+      · simp at h; obtain ⟨rfl, rfl⟩ := h; exact Or.inr ⟨rfl, rfl, rfl⟩
+      · split at h
+        · simp at h; obtain ⟨rfl, rfl⟩ := h; exact Or.inr ⟨rfl, rfl, rfl⟩
+        · simp only [AppState.init, ExecState.setPrepared] at h
+          simp at h; obtain ⟨rfl, rfl⟩ := h; exact Or.inl ⟨_, rfl⟩
+
+theorem setExecuted_unset (h : Nat) : ExecState.unset.setExecuted h = .ok (.executedBlock h none) := rfl
+theorem setExecuted_preparedValid (c : CachedProposal) (h : Nat) :
+    (ExecState.preparedValid c).setExecuted h = .ok (.executedBlock h (some c)) := rfl
+
+theorem Inv_process {σ : S} {cs : List Call} {a : AppState S} (hi : Inv p σ cs a) (b : Block) :
+    Inv p σ (cs ++ [Call.process b]) (stepProcess p a b).1 := by
+  obtain ⟨hc, hw, hex⟩ := hi
+  have hmem : Call.process b ∈ cs ++ [Call.process b] := by simp
+  cases hck : a.exec.checkPrepared b.fp with
+  | mk ex1 skip =>
+    cases skip with
+    | false =>
+      rw [stepProcess_noskip p hck]
+      cases hp : parseItems (p.veEnabled a.work b.height) b.items with
+      | error e =>
+        simp only
+        rcases checkPrepared_false hck with ⟨he, _, _⟩ | ⟨c', he⟩
+        · subst he
+          exact Inv_mono p ⟨hc, hw, hex⟩
+        · exact Inv_of_trivial p hc hw (Or.inr (Or.inl ⟨c', he⟩))
+      | ok pd =>
+        simp only
+        rw [processExec_init p (a := { a with exec := ex1 }) (σ := σ) hc hw]
+        obtain ⟨hf1, hf2, hf3, hf4, hf5⟩ := processExec_fields p σ b pd
+        cases hx : processExec p (AppState.init σ) b pd with
+        | mk a1 r =>
+          rw [hx] at hf1 hf2 hf3 hf4 hf5
+          simp at hf1 hf2 hf3 hf4 hf5
+          cases r with
+          | error e => exact Inv_of_trivial p hf2 hf3 (Or.inl hf1)
+          | ok ex =>
+            simp only
+            cases hq : postStep p a1 b pd ex with
+            | mk a2 r2 =>
+              have hinv : Inv p σ (cs ++ [Call.process b]) a2 := by
+                rcases postStep_spec p hq hf5 with ⟨rfl, _⟩ | ⟨hh, ex', hhash, hset, hex', hcm, hwb, _, hpd, _⟩
+                · exact Inv_of_trivial p hf2 hf3 (Or.inl hf1)
+                · rw [hf1, setExecuted_unset] at hset
+                  simp at hset
+                  refine ⟨hcm.trans hf2, hwb.trans hf3, ?_⟩
+                  rw [hex', ← hset]
+                  exact ⟨b, a.work, pd, hmem, hhash, hp, a1, ex, hx, hpd⟩
+              cases r2 <;> exact hinv
+    | true =>
+      obtain ⟨hor, hex1⟩ := checkPrepared_true hck
+      have hpo : PreparedOk p σ a b.fp := by
+        rcases hor with h | h <;> simpa [h] using hex
+      rw [stepProcess_skip p hck]
+      have hkeep : Inv p σ (cs ++ [Call.process b]) { a with exec := ex1 } := by
+        refine ⟨hc, hw, ?_⟩
+        subst hex1
+        obtain ⟨r, items, a0, h1, h2, h3, h4, h5⟩ := hpo
+        exact ⟨r, items, a0, h1, h2, h3, h4, h5⟩
+      cases hp : parseItems (p.veEnabled a.work b.height) b.items with
+      | error e => exact hkeep
+      | ok pd =>
+        simp only
+        split
+        · exact hkeep
+        · rename_i ex hx
+          have hinv : ∀ a2 r2, postStep p { a with exec := ex1 } b pd ex = (a2, r2) →
+              Inv p σ (cs ++ [Call.process b]) a2 := by
+            intro a2 r2 hq
+            obtain ⟨r, items, a0, h1, h2, h3, h4, h5⟩ := hpo
+            rcases postStep_spec p hq h5 with ⟨rfl, _⟩ | ⟨hh, ex', hhash, hset, hex', hcm, hwb, _, hpd, _⟩
+            · exact hkeep
+            · subst hex1
+              simp only [setExecuted_preparedValid] at hset
+              simp at hset
+              refine ⟨hcm.trans hc, hwb.trans hw, ?_⟩
+              rw [hex', ← hset]
+              refine ⟨b, a.work, pd, hmem, hhash, hp, rfl, r, items, a0, ex, h1, h2, ?_, ?_⟩
+              · rw [← h4]; exact hx
+              · simpa [h3] using hpd
+          split
+          · rename_i a2 e hq; exact hinv _ _ hq
+          · rename_i a2 u hq; exact hinv _ _ hq
+
+theorem Inv_step {σ : S} {cs : List Call} {a : AppState S} (hi : Inv p σ cs a) {c : Call} (hc : PreCall c) :
+    Inv p σ (cs ++ [c]) (step p a c).1 := by
+  cases c with
+  | prepare r =>
+    simp only [step]
+    rw [stepPrepare_init p hi.1 hi.2.1]
+    cases hs : stepPrepare p (AppState.init σ) r with
+    | mk a' resp =>
+      rcases stepPrepare_err p hs with ⟨items, rfl⟩ | ⟨h1, h2, h3⟩
+      · obtain ⟨s1, eci, added, bsc0, bsc1, st, _, _, _, _, _, _, _, hwork, hex, hexec, hcm, hpr, hwb⟩ := stepPrepare_spec p hs
+        refine ⟨by simpa [AppState.init] using hcm, by simpa [AppState.init] using hwb, ?_⟩
+        simp only [hexec]
+        exact ⟨r, items, a', hs, rfl, rfl, rfl, hpr⟩
+      · exact Inv_of_trivial p h2 h3 (Or.inl h1)
+  | process b => exact Inv_process p hi b
+  | restart =>
+    simp only [step]
+    exact Inv_of_trivial p (by simp [AppState.init, hi.1]) (by simp [AppState.init]) (Or.inl (by simp [AppState.init]))
+  | finalize _ => simp [PreCall] at hc
+  | commit => simp [PreCall] at hc
+
+/-- **Fingerprint invariant**: it holds after every schedule of pre-finalize calls. -/
+theorem Inv_runCalls {σ : S} : ∀ (cs pre : List Call) (a : AppState S), Inv p σ pre a → (∀ c ∈ cs, PreCall c) →
+    Inv p σ (pre ++ cs) (runCalls p a cs) := by
+  intro cs
+  induction cs with
+  | nil => intro pre a hi _; simpa [runCalls] using hi
+  | cons c cs ih =>
+    intro pre a hi hall
+    have h1 := Inv_step p hi (hall c (by simp))
+    have h2 := ih (pre ++ [c]) _ h1 (fun c' hc' => hall c' (by simp [hc']))
+    simpa [runCalls] using h2
+
+/-! ## C05: FinalizeBlock on the cached and on the uncached path -/
+
+/-- what `finalize_block` reads back after (re-)execution: the working state and the cached
+`PostTransactionExecutionResult`, if the execution succeeded -/
+def obs (x : AppState S × Except Err Unit) : Option (S × PostResult) :=
+  match x with
+  | (a, .ok _) => a.postResult.map (fun r => (a.work, r))
+  | (_, .error _) => none
+
+/-- the price phase of `finalize_block` (only if the block carries an extended commit info) -/
+def pricesOpt (s : S) (b : Block) (pd : Parsed) : Except Err (S × Nat) :=
+  if pd.eci.isSome then p.prices s b else .ok (s, 0)
+
+/-- **uncached order** — `finalize_block` on a node that has not executed the block: oracle prices
+first, then pre_execute / construct / execute / post_execute -/
+def runPricesFirst (σ : S) (b : Block) (pd : Parsed) : Option (S × Nat × PostResult) :=
+  match pricesOpt p σ b pd with
+  | .error _ => none
+  | .ok (s1, ev) =>
+    (obs (finalizeExec p { (AppState.init σ) with work := s1 } b pd)).map (fun x => (x.1, ev, x.2))
+
+/-- **cached order** — pre_execute / construct / execute / post_execute during `process_proposal`,
+oracle prices afterwards in `finalize_block` -/
+def runPricesLast (σ : S) (b : Block) (pd : Parsed) : Option (S × Nat × PostResult) :=
+  match obs (finalizeExec p (AppState.init σ) b pd) with
+  | none => none
+  | some (s2, r) =>
+    match pricesOpt p s2 b pd with
+    | .error _ => none
+    | .ok (s3, ev) => some (s3, ev, r)
+
+def respOf (x : S × Nat × PostResult) : FinalizeResp S :=
+  { priceEvents := x.2.1, codes := List.replicate x.2.2.injected 0 ++ x.2.2.results.map (·.2),
+    aux := x.2.2.aux, app := x.1 }
+
+/-- the successful `FinalizeBlock` response, if any -/
+def Resp.finalized? : Resp S → Option (FinalizeResp S)
+  | .finalized r => some r
+  | _ => none
+
+theorem postStep_fields (a : AppState S) (b : Block) (pd : Parsed) (ex : List Executed) :
+    (postStep p a b pd ex).1.committed = a.committed ∧ (postStep p a b pd ex).1.writeBatch = a.writeBatch := by
+  unfold postStep
+  split
+  · simp
+  · split
+    · simp
+    · dsimp only
+      split <;> simp
+
+theorem finalizeExec_fields (a : AppState S) (b : Block) (pd : Parsed) :
+    (finalizeExec p a b pd).1.committed = a.committed ∧ (finalizeExec p a b pd).1.writeBatch = a.writeBatch := by
+  unfold finalizeExec
+  split
+  · simp
+  · split
+    · simp
+    · dsimp only
+      exact postStep_fields p _ b pd _
+
+/-- `finalize_block` when the fingerprint does not match: reset, then the uncached order -/
+theorem stepFinalize_noskip {a : AppState S} {σ : S} {b : Block} {h : Nat} {ex1 : ExecState}
+    (hc : a.committed = σ) (hw : a.writeBatch = none) (hh : b.hash = some h)
+    (hck : a.exec.checkExecuted h = (ex1, false)) :
+    (stepFinalize p a b).2.finalized? =
+      (match parseItems (p.veEnabled σ b.height) b.items with
+       | .error _ => none
+       | .ok pd => (runPricesFirst p σ b pd).map respOf) ∧
+    (stepFinalize p a b).1.committed = σ ∧
+    (stepFinalize p a b).1.writeBatch = ((stepFinalize p a b).2.finalized?).map (·.app) := by
+  unfold stepFinalize
+  simp only [hh, hck]
+  have hr : ({ a with exec := ex1 } : AppState S).reset = AppState.init σ := reset_eq_init (by simpa using hc) (by simpa using hw)
+  simp only [Bool.false_eq_true, if_false, hr]
+  cases hp : parseItems (p.veEnabled (AppState.init σ).work b.height) b.items with
+  | error e => simp [AppState.init] at hp ⊢; simp [hp, Resp.finalized?]
+  | ok pd =>
+    have hp' : parseItems (p.veEnabled σ b.height) b.items = .ok pd := by simpa [AppState.init] using hp
+    simp only [hp']
+    unfold runPricesFirst pricesOpt
+    cases hpr : (if pd.eci.isSome = true then p.prices (AppState.init σ).work b else Except.ok ((AppState.init σ).work, 0)) with
+    | error e =>
+      have : (if pd.eci.isSome = true then p.prices σ b else Except.ok (σ, 0)) = .error e := by simpa [AppState.init] using hpr
+      simp [this, Resp.finalized?, AppState.init]
+    | ok sv =>
+      obtain ⟨s1, ev⟩ := sv
+      have : (if pd.eci.isSome = true then p.prices σ b else Except.ok (σ, 0)) = .ok (s1, ev) := by simpa [AppState.init] using hpr
+      simp only [this]
+      cases hx : finalizeExec p { (AppState.init σ) with work := s1 } b pd with
+      | mk a2 r =>
+        have hfx := finalizeExec_fields p { (AppState.init σ) with work := s1 } b pd
+        rw [hx] at hfx
+        simp [AppState.init] at hfx
+        obtain ⟨hf1, hf2⟩ := hfx
+        cases r with
+        | error e => simp [obs, Resp.finalized?, hf1, hf2]
+        | ok u =>
+          simp only [obs]
+          cases hpo : a2.postResult with
+          | none => simp [Resp.finalized?, hf1, hf2]
+          | some res => simp [Resp.finalized?, respOf, hf1]
+
+
+theorem checkExecuted_same (h : Nat) (cp : Option CachedProposal) :
+    (ExecState.executedBlock h cp).checkExecuted h = (.executedBlock h cp, true) := by
+  simp [ExecState.checkExecuted]
+
+/-- `finalize_block` when the fingerprint matches: no reset, prices on top of the cached state -/
+theorem stepFinalize_skip {a : AppState S} {σ : S} {b : Block} {h : Nat} {cp : Option CachedProposal}
+    (hc : a.committed = σ) (hw : a.writeBatch = none) (hh : b.hash = some h)
+    (hex : a.exec = .executedBlock h cp) :
+    (stepFinalize p a b).2.finalized? =
+      (match parseItems (p.veEnabled a.work b.height) b.items with
+       | .error _ => none
+       | .ok pd =>
+         match pricesOpt p a.work b pd with
+         | .error _ => none
+         | .ok (s1, ev) => a.postResult.map (fun res => respOf (s1, ev, res))) ∧
+    (stepFinalize p a b).1.committed = σ ∧
+    (stepFinalize p a b).1.writeBatch = ((stepFinalize p a b).2.finalized?).map (·.app) := by
+  unfold stepFinalize
+  simp only [hh, hex, checkExecuted_same, if_true]
+  cases hp : parseItems (p.veEnabled a.work b.height) b.items with
+  | error e => simp [Resp.finalized?, hc, hw]
+  | ok pd =>
+    simp only
+    unfold pricesOpt
+    cases hpr : (if pd.eci.isSome = true then p.prices a.work b else Except.ok (a.work, 0)) with
+    | error e => simp [Resp.finalized?, hc, hw]
+    | ok sv =>
+      obtain ⟨s1, ev⟩ := sv
+      simp only
+      cases hpo : a.postResult with
+      | none => simp [Resp.finalized?, hc, hw]
+      | some res => simp [Resp.finalized?, respOf, hc]
+
+/-! ## C05: path independence -/
+
+/-- **process agrees with finalize**: whenever `process_proposal`'s own (strict) execution of a
+block succeeds, `finalize_block`'s (lenient) execution of the same block on the same state
+computes the same state and results. -/
+theorem processExec_finalizeExec {σ : S} {b : Block} {pd : Parsed} {a1 : AppState S} {ex : List Executed}
+    (h : processExec p (AppState.init σ) b pd = (a1, .ok ex)) :
+    finalizeExec p (AppState.init σ) b pd = postStep p { (AppState.init σ) with work := a1.work } b pd ex := by
+  obtain ⟨_, s1, txs, st, hpre, hcon, hl, hdone, hwork, _, _⟩ := processExec_ok p h
+  obtain ⟨added, hext, hmap⟩ := procLoop_ext p _ _ _ hl
+  have hd : st.done = added := by simpa [LoopSt.init] using hext.done
+  have hrun : Runs p s1 added st.s := by simpa [LoopSt.init] using hext.runs
+  have hfin := finLoop_of_runs p added s1 st.s [] hrun
+  rw [hmap] at hfin
+  unfold finalizeExec
+  simp only [AppState.init] at hpre ⊢
+  rw [hpre]
+  simp only
+  rw [hcon]
+  simp only
+  rw [hfin, hwork, ← hdone, hd]
+  simp
+
+/-- how a recorded post-execution outcome relates to `postStep` from a fresh fingerprint -/
+theorem postDone_obs {σ s : S} {b : Block} {pd : Parsed} {ex : List Executed} {a : AppState S} {h : Nat}
+    (hh : b.hash = some h) (hd : PostDone p s b pd ex a) :
+    match obs (postStep p { (AppState.init σ) with work := s } b pd ex) with
+    | some (s', r) => a.work = s' ∧ a.postResult = some r
+    | none => a.postResult = none := by
+  unfold postStep
+  simp only [hh, AppState.init, setExecuted_unset]
+  rcases hd with ⟨s', aux, hp, hw, hr⟩ | ⟨e, hp, _, hr⟩
+  · simp [hp, obs, hw, hr]
+  · simp [hp, obs, hr]
+
+/-- the hypothesis about `prepare_proposal`: what it cached for a proposal (executed from
+transactions constructed at CheckTx time) is what a fresh execution of that proposal on the same
+committed state computes. C06 gives sufficient conditions; F11 is a counterexample. -/
+def PrepareCoherent (σ : S) (b : Block) : Prop :=
+  ∀ pd r items a0 ex, parseItems (p.veEnabled σ b.height) b.items = .ok pd →
+    stepPrepare p (AppState.init σ) r = (a0, .prepared items) → r.fp items = b.fp →
+    a0.executedTxs = some ex →
+    obs (postStep p { (AppState.init σ) with work := a0.work } b pd ex) = obs (finalizeExec p (AppState.init σ) b pd)
+
+/-- the commutation hypothesis: the price phase before or after the rest of block execution -/
+def PricesCommute (σ : S) (b : Block) : Prop :=
+  ∀ pd, parseItems (p.veEnabled σ b.height) b.items = .ok pd → runPricesFirst p σ b pd = runPricesLast p σ b pd
+
+/-- vote-extension enablement at height `h` is not changed by uncommitted writes -/
+def VeStable (h : Nat) : Prop := ∀ s s' : S, p.veEnabled s h = p.veEnabled s' h
+
+/-- **Path independence** (partial: under `PricesCommute`, `PrepareCoherent`, `VeStable` and
+block-hash binding). After any schedule of Prepare / Process / restart calls on the committed state
+`σ`, `FinalizeBlock(b)` answers exactly as it does on a node that saw nothing but
+`FinalizeBlock(b)`; in particular it fails on one path iff it fails on the other, and the state
+staged for `Commit` is the same. -/
+theorem path_independence {σ : S} {b : Block} {h : Nat} (hh : b.hash = some h)
+    (cs : List Call) (hlegal : ∀ c ∈ cs, PreCall c)
+    (hbind : ∀ b', Call.process b' ∈ cs → b'.hash = b.hash → b' = b)
+    (hve : VeStable p b.height) (hcomm : PricesCommute p σ b) (hprep : PrepareCoherent p σ b) :
+    let a := runCalls p (AppState.init σ) cs
+    (stepFinalize p a b).2.finalized? = (stepFinalize p (AppState.init σ) b).2.finalized? ∧
+    (stepFinalize p a b).1.committed = σ ∧
+    (stepFinalize p a b).1.writeBatch = (stepFinalize p (AppState.init σ) b).1.writeBatch := by
+  intro a
+  have hinv : Inv p σ cs a := by
+    have := Inv_runCalls p cs [] (AppState.init σ) (Inv_init p σ) hlegal
+    simpa using this
+  obtain ⟨hc, hw, hexec⟩ := hinv
+  -- the canonical run
+  have hcanon := stepFinalize_noskip p (a := AppState.init σ) (σ := σ) (b := b) (h := h) (ex1 := .unset)
+    rfl rfl hh (by simp [AppState.init, ExecState.checkExecuted])
+  cases hck : a.exec.checkExecuted h with
+  | mk ex1 skip =>
+    cases skip with
+    | false =>
+      have := stepFinalize_noskip p hc hw hh hck
+      refine ⟨this.1.trans hcanon.1.symm, this.2.1, ?_⟩
+      rw [this.2.2, hcanon.2.2, this.1, hcanon.1]
+    | true =>
+      obtain ⟨cp, hex, _⟩ := checkExecuted_true hck
+      have hsk := stepFinalize_skip p hc hw hh hex
+      rw [hex] at hexec
+      simp only at hexec
+      obtain ⟨b', s0, pd', hmem, hhash', hparse', hcase⟩ := hexec
+      have hb' : b' = b := hbind b' hmem (by rw [hhash', hh])
+      subst hb'
+      have hpeq : parseItems (p.veEnabled a.work b'.height) b'.items = parseItems (p.veEnabled σ b'.height) b'.items := by
+        rw [hve a.work σ]
+      have hpeq0 : parseItems (p.veEnabled s0 b'.height) b'.items = parseItems (p.veEnabled σ b'.height) b'.items := by
+        rw [hve s0 σ]
+      rw [hpeq] at hsk
+      rw [hpeq0] at hparse'
+      -- what the cached state is
+      have hcached : match obs (finalizeExec p (AppState.init σ) b' pd') with
+          | some (s', r) => a.work = s' ∧ a.postResult = some r
+          | none => a.postResult = none := by
+        cases cp with
+        | none =>
+          obtain ⟨a1, ex, hx, hpd⟩ := hcase
+          rw [processExec_finalizeExec p hx]
+          exact postDone_obs p hh hpd
+        | some c =>
+          obtain ⟨hcfp, r, items, a0, ex, hsp, hcr, hext, hpd⟩ := hcase
+          rw [← hprep pd' r items a0 ex hparse' hsp (hcr.symm.trans hcfp) hext]
+          exact postDone_obs p hh hpd
+      have hfinal : (stepFinalize p a b').2.finalized? = (runPricesLast p σ b' pd').map respOf := by
+        rw [hsk.1, hparse']
+        simp only
+        unfold runPricesLast
+        cases ho : obs (finalizeExec p (AppState.init σ) b' pd') with
+        | none =>
+          rw [ho] at hcached
+          simp only at hcached
+          rw [hcached]
+          cases pricesOpt p a.work b' pd' with
+          | error e => simp
+          | ok sv => simp
+        | some sr =>
+          obtain ⟨s', r⟩ := sr
+          rw [ho] at hcached
+          simp only at hcached
+          obtain ⟨hw', hr'⟩ := hcached
+          rw [hw', hr']
+          simp only
+          cases pricesOpt p s' b' pd' with
+          | error e => simp
+          | ok sv => obtain ⟨s3, ev⟩ := sv; simp
+      have hcan : (stepFinalize p (AppState.init σ) b').2.finalized? = (runPricesFirst p σ b' pd').map respOf := by
+        rw [hcanon.1, hparse']
+      have heq : (stepFinalize p a b').2.finalized? = (stepFinalize p (AppState.init σ) b').2.finalized? := by
+        rw [hfinal, hcan, hcomm pd' hparse']
+      refine ⟨heq, hsk.2.1, ?_⟩
+      rw [hsk.2.2, hcanon.2.2, heq]
+
+theorem parseItems_proposal_badeci (r1 r2 bid len : Nat) (added : List Executed) :
+    ∃ e, parseItems true (proposalItems r1 r2 (some (.eci bid len false)) added) = .error e := by
+  simp [proposalItems, parseItems]
+
+/-- **C06 ⇒ C05 link**: `PrepareCoherent` holds for a block whose transactions are all
+constructible at block start, when `pre_execute_transactions` depends on the block data only and
+vote-extension enablement is stable. (F11 blocks violate the constructibility premise.) -/
+theorem prepareCoherent_of_constructible {σ : S} {b : Block}
+    (hve : VeStable p b.height)
+    (hpre : ∀ (r : PrepReq) (items : List Item), r.fp items = b.fp → p.pre σ b = p.pre σ (r.asBlock []))
+    (hcons : ∀ s1, p.pre σ b = .ok s1 → ∀ t, Item.tx t ∈ b.items → p.constructible s1 t = true) :
+    PrepareCoherent p σ b := by
+  intro pd r items a0 ex hparse hsp hfp hex
+  obtain ⟨s1, eci, added, bsc0, bsc1, st, hpre1, hb, he, hl, hext, hsub, hitems, hwork, hexa, _, _, _, _⟩ :=
+    stepPrepare_spec p hsp
+  simp only [AppState.init] at hpre1
+  have hbi : b.items = items := by
+    have := congrArg CachedProposal.txs hfp; simpa [PrepReq.fp, Block.fp] using this.symm
+  have hbh : b.height = r.height := by
+    have := congrArg CachedProposal.height hfp; simpa [PrepReq.fp, Block.fp] using this.symm
+  have hexeq : ex = added := by rw [hexa] at hex; simpa using hex.symm
+  subst hexeq
+  obtain ⟨_, _, _, _, _, ecase⟩ := prepEci_ok p he
+  -- the parse of the proposal
+  have hpdtx : pd.txs = ex.map (fun e => Item.tx e.1) := by
+    rw [hbi, hitems, hbh] at hparse
+    have hv : p.veEnabled σ r.height = p.veEnabled s1 r.height := by
+      have := hve σ s1; rwa [hbh] at this
+    rw [hv] at hparse
+    rcases ecase with ⟨h1, rfl⟩ | ⟨h1, rfl⟩ | ⟨h1, rfl, _⟩
+    · rw [h1, parseItems_proposal_noeci] at hparse
+      simp at hparse; rw [← hparse]
+    · rw [h1, parseItems_proposal_eci] at hparse
+      simp at hparse; rw [← hparse]
+    · rw [h1] at hparse
+      obtain ⟨e, hbad⟩ := parseItems_proposal_badeci (p.roots st.s (ex.map (·.1))).1 (p.roots st.s (ex.map (·.1))).2 p.eciEmpty.1 p.eciEmpty.2 ex
+      rw [hbad] at hparse; simp at hparse
+  have hpreb : p.pre σ b = .ok s1 := (hpre r items hfp).trans hpre1
+  have hrun : Runs p s1 ex st.s := by simpa [LoopSt.init] using hext.runs
+  have hconstr : constructAll p s1 pd.txs = .ok (ex.map (·.1)) := by
+    rw [hpdtx]
+    have := constructAll_complete p (s := s1) (ex.map (·.1)) (by
+      intro t ht
+      apply hcons s1 hpreb t
+      rw [hbi, hitems]
+      obtain ⟨e, he', rfl⟩ := List.mem_map.mp ht
+      exact List.mem_append_right _ (List.mem_map.mpr ⟨e, he', rfl⟩))
+    simpa [List.map_map, Function.comp_def] using this
+  have hfin := finLoop_of_runs p ex s1 st.s [] hrun
+  have : finalizeExec p (AppState.init σ) b pd = postStep p { (AppState.init σ) with work := a0.work } b pd ex := by
+    unfold finalizeExec
+    simp only [AppState.init]
+    rw [hpreb]
+    simp only
+    rw [hconstr]
+    simp only
+    rw [hfin, hwork]
+    simp
+  rw [this]
+
+/-! ## Multi-block histories -/
+
+/-- one height on a node whose committed state is `σ`: the pre-finalize calls, `FinalizeBlock(b)`,
+`Commit`. `none`: FinalizeBlock failed (the node halts). -/
+def runHeight (σ : S) (cs : List Call) (b : Block) : Option S :=
+  (stepFinalize p (runCalls p (AppState.init σ) cs) b).1.writeBatch
+
+def runHistory (σ : S) : List (List Call × Block) → Option S
+  | [] => some σ
+  | (cs, b) :: rest =>
+    match runHeight p σ cs b with
+    | none => none
+    | some σ' => runHistory σ' rest
+
+/-- the hypotheses of `path_independence` for one height -/
+def HeightOk (σ : S) (cs : List Call) (b : Block) : Prop :=
+  (∃ h, b.hash = some h) ∧ (∀ c ∈ cs, PreCall c) ∧
+  (∀ b', Call.process b' ∈ cs → b'.hash = b.hash → b' = b) ∧
+  VeStable p b.height ∧ PricesCommute p σ b ∧ PrepareCoherent p σ b
+
+def HistOk (σ : S) : List (List Call × Block) → Prop
+  | [] => True
+  | (cs, b) :: rest => HeightOk p σ cs b ∧ ∀ σ', runHeight p σ [] b = some σ' → HistOk σ' rest
+
+theorem runHeight_independent {σ : S} {cs : List Call} {b : Block} (hok : HeightOk p σ cs b) :
+    runHeight p σ cs b = runHeight p σ [] b := by
+  obtain ⟨⟨h, hh⟩, hl, hb, hv, hc, hp⟩ := hok
+  exact (path_independence p hh cs hl hb hv hc hp).2.2
+
+/-- **Histories**: a node that is driven through any legal call schedule at every height ends
+with the same committed state as a node that only ever sees `FinalizeBlock; Commit`, and halts at
+the same height if it halts. -/
+theorem history_independence : ∀ (hs : List (List Call × Block)) (σ : S), HistOk p σ hs →
+    runHistory p σ hs = runHistory p σ (hs.map (fun x => ([], x.2))) := by
+  intro hs
+  induction hs with
+  | nil => intro σ _; rfl
+  | cons x rest ih =>
+    intro σ hok
+    obtain ⟨cs, b⟩ := x
+    obtain ⟨h1, h2⟩ := hok
+    simp only [runHistory, List.map_cons]
+    rw [runHeight_independent p h1]
+    cases hr : runHeight p σ [] b with
+    | none => rfl
+    | some σ' => exact ih σ' (h2 σ' hr)
+
+/-- `Commit` after a successful `FinalizeBlock` installs exactly the staged state and a fresh
+fingerprint. -/
+theorem commit_after_finalize {a : AppState S} {s : S} (h : a.writeBatch = some s) :
+    (stepCommit a).1 = AppState.init s := by
+  simp [stepCommit, h]
+
+/-! ## ProcessProposal rejects each class of malformed proposal (C06) -/
+
+/-- a parse failure is a rejection on every node, whatever its fingerprint -/
+theorem process_parse_error {a : AppState S} {b : Block} {e : Err}
+    (h : parseItems (p.veEnabled a.work b.height) b.items = .error e) :
+    (stepProcess p a b).2 = .reject e := by
+  cases hck : a.exec.checkPrepared b.fp with
+  | mk ex1 skip =>
+    cases skip with
+    | false => rw [stepProcess_noskip p hck, h]
+    | true => rw [stepProcess_skip p hck, h]
+
+/-- the group order of a transaction list: each group at most its predecessor's, the first at most `g` -/
+def GroupSorted : Nat → List Tx → Prop
+  | _, [] => True
+  | g, t :: l => t.group ≤ g ∧ GroupSorted t.group l
+
+theorem GroupChain_sorted : ∀ (l : List Executed) (g : Nat), GroupChain g l → GroupSorted g (l.map (·.1)) := by
+  intro l
+  induction l with
+  | nil => intro g _; trivial
+  | cons e l ih => intro g h; exact ⟨h.1, ih _ h.2⟩
+
+theorem seqSum_map (l : List Executed) : seqSum l = ((l.map (·.1)).map (·.seq)).sum := by
+  simp [seqSum, List.map_map, Function.comp_def]
+
+/-- Everything an accepted proposal satisfies, phrased over the block's own item list. The
+rejection theorems are its contrapositives. -/
+theorem process_accept_items {a a' : AppState S} {b : Block} {σ : S} {ex1 : ExecState}
+    (hc : a.committed = σ) (hw : a.writeBatch = none)
+    (hck : a.exec.checkPrepared b.fp = (ex1, false))
+    (h : stepProcess p a b = (a', .accept)) :
+    ∃ pd s1 txs, parseItems (p.veEnabled a.work b.height) b.items = .ok pd ∧ p.pre σ b = .ok s1 ∧
+      pd.txs = txs.map Item.tx ∧ (∀ t ∈ txs, p.constructible s1 t = true) ∧
+      GroupSorted 4 txs ∧ (txs.map (·.seq)).sum ≤ maxSeqBytes ∧
+      (∃ added s', added.map (·.1) = txs ∧ Runs p s1 added s' ∧
+         pd.r1 = (p.roots s' txs).1 ∧ pd.r2 = (p.roots s' txs).2) := by
+  obtain ⟨pd, s1, added, s', hh, s'', aux, hp, _, hpre, htx, hcons, hrun, hchain, hseq, hr1, hr2, _⟩ :=
+    process_accept_sound p hc hw hck h
+  refine ⟨pd, s1, added.map (·.1), hp, hpre, ?_, ?_, GroupChain_sorted _ _ hchain, ?_, added, s', rfl, hrun, hr1, hr2⟩
+  · rw [htx]; simp [List.map_map, Function.comp_def]
+  · intro t ht; obtain ⟨e, he, rfl⟩ := List.mem_map.mp ht; exact hcons e he
+  · rw [← seqSum_map]; exact hseq
+
+/-- **the proposer validating its own proposal**: accepted whenever the extended commit info is
+the well-formed one and post-execution succeeds -/
+theorem prepare_then_own_process_accepts
+    {a a1 : AppState S} {r : PrepReq} {items : List Item} {σ : S} {hash : Nat}
+    (hprep : stepPrepare p a r = (a1, .prepared items)) (hσ : a.committed = σ)
+    (hve : ∀ s s', p.veEnabled s r.height = p.veEnabled s' r.height)
+    (hfit : ∀ s1 bsc0, p.pre σ (r.asBlock []) = .ok s1 → BSC.new r.maxTxBytes = .ok bsc0 →
+        p.veEnabled s1 r.height = true → ∃ bsc1, bsc0.cometAdd (p.eciFull s1 r).2 = .ok bsc1)
+    (hpost : ∀ ex, a1.executedTxs = some ex → ∃ s'' aux, p.post a1.work (r.proposed items hash) ex = .ok (s'', aux)) :
+    (stepProcess p a1 (r.proposed items hash)).2 = .accept := by
+  obtain ⟨s1, eci, added, bsc0, bsc1, st, hpre1, hb, he, hl, hext, hsub, hitems, hwork, hex, hexec, _, hpr, _⟩ :=
+    stepPrepare_spec p hprep
+  rw [hσ] at hpre1
+  obtain ⟨_, _, _, _, _, ecase⟩ := prepEci_ok p he
+  have hck : a1.exec.checkPrepared (r.proposed items hash).fp = (.preparedValid (r.fp items), true) := by
+    rw [hexec, proposed_fp]; simp [ExecState.checkPrepared]
+  have hparse : ∃ pd, parseItems (p.veEnabled a1.work (r.proposed items hash).height) (r.proposed items hash).items = .ok pd := by
+    have hv : p.veEnabled a1.work r.height = p.veEnabled s1 r.height := hve _ _
+    show ∃ pd, parseItems (p.veEnabled a1.work r.height) items = .ok pd
+    rw [hv, hitems]
+    cases hen : p.veEnabled s1 r.height with
+    | false =>
+      rcases ecase with ⟨_, rfl⟩ | ⟨h1, _⟩ | ⟨h1, _⟩
+      · exact ⟨_, parseItems_proposal_noeci _ _ _⟩
+      · simp [hen] at h1
+      · simp [hen] at h1
+    | true =>
+      obtain ⟨b1, hb1⟩ := hfit s1 bsc0 hpre1 hb hen
+      have := prepEci_full p he hen hb1
+      subst this
+      exact ⟨_, parseItems_proposal_eci _ _ _ _ _⟩
+  obtain ⟨pd, hpd⟩ := hparse
+  rw [stepProcess_skip p hck, hpd]
+  simp only [hex]
+  obtain ⟨s'', aux, hp⟩ := hpost added hex
+  unfold postStep
+  simp [PrepReq.proposed, setExecuted_preparedValid]
+  simp [PrepReq.proposed] at hp
+  rw [hp]
+
 end Astria.Abci
